@@ -126,3 +126,38 @@ def explore(runner, bound, check, deadline=None, max_exec=None, jobs=None):
                     complete = False
                 break
     return n, complete
+
+
+def explore_hashed(runner, check, deadline=None, max_exec=None, jobs=None):
+    """State-hashed exploration WITHOUT a preemption bound: an alternative at a point is explored only if the edge
+    (state key at that point, thread that would move) has not been taken or scheduled before.  The state key is computed by
+    the scheduler: every thread's position and status, the mutex model, the harness's digest of the shared registry.
+    Soundness of merging rests on: a thread's private state is a function of its own position and of the shared state it
+    read under the lock (reported separately from the bounded passes, which rest on nothing)."""
+    import time
+    seen = set()
+    states = set()
+    frontier = [[]]
+    n = 0
+    complete = True
+    with ThreadPoolExecutor(max_workers=jobs or NCPU) as ex:
+        while frontier:
+            batch, frontier = frontier[:256], frontier[256:]
+            for x in ex.map(runner, batch):
+                n += 1
+                check(x)
+                choices = [p['c'] for p in x.points]
+                for i, p in enumerate(x.points):
+                    states.add(p['k'])
+                    for alt in range(len(p['en'])):
+                        edge = (p['k'], p['en'][alt])
+                        if alt == p['c']:
+                            seen.add(edge)
+                        elif i >= len(x.prefix) and edge not in seen:
+                            seen.add(edge)
+                            frontier.append(choices[:i] + [alt])
+            if (deadline and time.time() > deadline) or (max_exec and n >= max_exec):
+                if frontier:
+                    complete = False
+                break
+    return n, complete, len(states), len(seen)
